@@ -108,7 +108,11 @@ Inductive node :=
 (* fstamp / dstamp: the time last set explicitly (utimes) on a file (by inode) / directory (by
    location); 0 = never.  Implicit updates of times by writes are not modelled. *)
 Record fsys := mkFS { ents : list (path * node); cont : list (nat * N); nexti : nat;
-                      dmode : list (path * N); fstamp : list (nat * N); dstamp : list (path * N) }.
+                      dmode : list (path * N); fstamp : list (nat * N); dstamp : list (path * N);
+                      taint : list nat }.
+(* taint: ghost field, never read or changed by any operation - the inodes that files below the
+   working directory share with files outside when the store is opened (pre-populated hard links);
+   only the theorems speak about it *)
 
 Fixpoint lookup_ents (l : list (path * node)) (p : path) : option node :=
   match l with
@@ -145,20 +149,20 @@ Definition del_ents (l : list (path * node)) (p : path) : list (path * node) :=
   filter (fun e => negb (path_eqb (fst e) p)) l.
 
 Definition set_ent (p : path) (n : node) (f : fsys) : fsys :=
-  mkFS ((p, n) :: del_ents (ents f) p) (cont f) (nexti f) (dmode f) (fstamp f) (dstamp f).
+  mkFS ((p, n) :: del_ents (ents f) p) (cont f) (nexti f) (dmode f) (fstamp f) (dstamp f) (taint f).
 Definition del_ent (p : path) (f : fsys) : fsys :=
-  mkFS (del_ents (ents f) p) (cont f) (nexti f) (dmode f) (fstamp f) (dstamp f).
+  mkFS (del_ents (ents f) p) (cont f) (nexti f) (dmode f) (fstamp f) (dstamp f) (taint f).
 Definition set_cont (i : nat) (c : N) (f : fsys) : fsys :=
-  mkFS (ents f) ((i, c) :: cont f) (nexti f) (dmode f) (fstamp f) (dstamp f).
+  mkFS (ents f) ((i, c) :: cont f) (nexti f) (dmode f) (fstamp f) (dstamp f) (taint f).
 Definition new_file (p : path) (c : N) (f : fsys) : fsys :=
   mkFS ((p, NFile (nexti f)) :: del_ents (ents f) p) ((nexti f, c) :: cont f) (S (nexti f)) (dmode f)
-       (fstamp f) (dstamp f).
+       (fstamp f) (dstamp f) (taint f).
 Definition set_dmode (p : path) (m : N) (f : fsys) : fsys :=
-  mkFS (ents f) (cont f) (nexti f) ((p, m) :: dmode f) (fstamp f) (dstamp f).
+  mkFS (ents f) (cont f) (nexti f) ((p, m) :: dmode f) (fstamp f) (dstamp f) (taint f).
 Definition set_fstamp (i : nat) (t : N) (f : fsys) : fsys :=
-  mkFS (ents f) (cont f) (nexti f) (dmode f) ((i, t) :: fstamp f) (dstamp f).
+  mkFS (ents f) (cont f) (nexti f) (dmode f) ((i, t) :: fstamp f) (dstamp f) (taint f).
 Definition set_dstamp (p : path) (t : N) (f : fsys) : fsys :=
-  mkFS (ents f) (cont f) (nexti f) (dmode f) (fstamp f) ((p, t) :: dstamp f).
+  mkFS (ents f) (cont f) (nexti f) (dmode f) (fstamp f) ((p, t) :: dstamp f) (taint f).
 Definition new_dir (p : path) (m : N) (f : fsys) : fsys :=
   set_dmode p (N.land m 493) (set_ent p NDir f).   (* umask 022 *)
 
@@ -350,7 +354,7 @@ Fixpoint descend_ok (f : fsys) (cur : path) (qs : list name) : bool :=
     match lookup f (cur ++ [c]) with
     | None => true
     | Some NDir => descend_ok f (cur ++ [c]) r
-    | Some (NFile _) => match r with [] => true | _ => false end
+    | Some (NFile _) => true   (* Lstat below a regular file: ENOTDIR, "cannot exist" like ENOENT *)
     | Some (NSym _ _ _) => false
     end
   end.
